@@ -1,1 +1,46 @@
-fn main(){}
+mod c18;
+mod common;
+
+use vlib::util::*;
+
+fn main() {
+    let args: Vec<String> = std::env::args().skip(1).collect();
+    if args.is_empty() {
+        machinery_fail("usage: vbevy <id> [quick|thorough] [--replay <file>]");
+    }
+    let id = args[0].to_uppercase();
+    let mut tier = std::env::var("VERIF_TIER").unwrap_or_else(|_| "quick".into());
+    let mut replay: Option<String> = None;
+    let mut i = 1;
+    while i < args.len() {
+        match args[i].as_str() {
+            "quick" | "thorough" => tier = args[i].clone(),
+            "--replay" => {
+                i += 1;
+                replay = Some(args[i].clone());
+            }
+            other => machinery_fail(&format!("unknown argument {other}")),
+        }
+        i += 1;
+    }
+    silence_panics();
+    if let Some(path) = replay {
+        let txt = std::fs::read_to_string(&path).unwrap_or_else(|e| machinery_fail(&format!("read {path}: {e}")));
+        let v: serde_json::Value = serde_json::from_str(&txt).unwrap_or_else(|e| machinery_fail(&format!("parse {path}: {e}")));
+        let ok = match id.as_str() {
+            "C18" => c18::replay(&v["case"]),
+            _ => machinery_fail("no replay for this id"),
+        };
+        if ok {
+            println!("replay: property holds on this case");
+            std::process::exit(0);
+        }
+        println!("VIOLATION property={id} replay={path}");
+        std::process::exit(1);
+    }
+    let run = Run::start(&id, &tier);
+    match id.as_str() {
+        "C18" => c18::run(run),
+        _ => machinery_fail("unknown property id"),
+    }
+}
